@@ -292,6 +292,35 @@ def checker_cases(ctx, out, objs, contig_sets):
             out.disagreements.append(d)
 
 
+def eval_rekey(typed, order, cs, spec0, spec1, spec2):
+    """A record is keyed once, its location / barcodes are then changed in place (column.value = ...), and it is keyed
+    again: the key compares as the documented order says for what the record holds NOW."""
+    mk = (lambda sp: SC.typed_record(None, *sp)) if typed else (lambda sp: SC.untyped_record(sp[0], sp[1] or "", sp[2], str(sp[3]), str(sp[4])))
+    where = {"kind": "rekey", "typed": typed, "order": order, "contigs": cs, "specs": [list(spec0), list(spec1), list(spec2)]}
+    try:
+        a, b = mk(spec0), mk(spec2)
+        so = SC.order_obj(order, cs)
+        so.sort_key()(a)                       # keyed once (a checker, a sorter, the caller)
+        SC.retarget(a, mk(spec1))              # ... then edited in place
+        i, _w, fails, _t = eval_pair("typed" if typed else "untyped", a, "typed" if typed else "untyped", b, order, cs, so=so)
+    except Exception as e:  # noqa
+        return [dict(where, what="keying a record again after an in-place edit failed with %s" % exc_name(e))]
+    return [dict(where, what="a record keyed, edited in place and keyed again: " + f["what"], got=f.get("got"), expected=f.get("expected")) for f in fails]
+
+
+def rekey_cases(ctx, out):
+    rng = ctx.rng("c08-rekey")
+    chroms = ["1", "2", "10", "X"]
+    for _ in range(ctx.scale(150, 1500)):
+        sp = lambda: (rng.choice(["T1", "T2"]), rng.choice(["N1", "N2"]), rng.choice(chroms), rng.choice([1, 9, 10, 100]), 0)  # noqa: E731
+        specs = [sp() for _k in range(3)]
+        specs = [(t, n, c, s_, s_ + rng.choice([0, 1, 50])) for (t, n, c, s_, _e) in specs]
+        out.evaluations += 1
+        out.failures += eval_rekey(rng.random() < 0.5, rng.choice(["Coordinate", "BarcodesAndCoordinate"]), rng.choice([[], ["1", "2", "10", "X"], ["X", "10", "2", "1"]]), *specs)
+        out.distribution["a record keyed, edited in place, keyed again"] += 1
+        out.nontrivial.add(("rekey", repr(specs)))
+
+
 def run(ctx):
     out = Outcome()
     out.rule = ("pairs and triples of typed records, scheme-less records and plain locatables over present/missing/equal/less/greater "
@@ -340,6 +369,7 @@ def run(ctx):
                  "and a record on a chromosome that the contig list does not name at every position")
     route_cases(ctx, out, objs, contig_sets)
     checker_cases(ctx, out, objs, contig_sets)
+    rekey_cases(ctx, out)
     from .. import bodycases
     bodycases.compare_cases(ctx, out)
     bodycases.translation_report(ctx, out)
@@ -358,6 +388,14 @@ def rebuild(kind, l):
 
 
 def replay_case(ctx, failure):
+    if failure.get("kind") == "rekey" and "specs" in failure:
+        s0, s1, s2 = [tuple(x) for x in failure["specs"]]
+        fails = eval_rekey(failure["typed"], failure["order"], failure["contigs"], s0, s1, s2)
+        print("replay C08: a %s record built as %s is keyed (%s, contigs %s), set in place to %s, keyed again and compared with a record %s" % (
+            "typed" if failure["typed"] else "scheme-less", s0, failure["order"], failure["contigs"], s1, s2))
+        for x in fails:
+            print("  oracle: %s" % x["what"])
+        return fails
     """Re-evaluate the stored failing input on the current implementation; return the list of failure dicts it
     produces now (empty list = the property holds on that input)."""
     import tempfile
